@@ -104,11 +104,12 @@ EndOf(kd, s, j) == EndTab[kd][s][j]
 
 (* ---- tampering with the first message of a connection, by structure ---- *)
 BadVersion == <<"H", "T", "T", "X", "/", "1", ".", "1">>
-MutKinds == {"method", "version", "nospace", "nostart", "target", "status", "nocolon", "obsfold",
+Redirs == {"redirnoloc", "redirbadport", "redirbadhost"}      \* a redirect the client cannot follow
+MutKinds == Redirs \cup {"method", "version", "nospace", "nostart", "target", "status", "nocolon", "obsfold",
              "lennonnum", "lenneg", "lenmore", "lenless", "sizebad", "sizeempty", "termwrong", "termmiss", "trailerbad"}
 Applicable(m, mu) ==
     CASE mu \in {"method", "target"} -> m.kind = "req"
-      [] mu = "status" -> m.kind = "resp"
+      [] mu = "status" \/ mu \in Redirs -> m.kind = "resp"
       [] mu \in {"version", "nospace", "nostart"} -> TRUE
       [] mu \in {"nocolon", "obsfold"} -> AllHeads(m) # <<>>
       [] mu \in {"lennonnum", "lenneg", "lenmore", "lenless"} -> m.body.k = "fixed"
@@ -122,13 +123,17 @@ XStart(m, mu) ==
       [] mu = "nostart" -> CRLF
       [] mu = "target" -> m.start[1] \o <<SP, "h", "t", "t", "p", ":", "/", "/", "[", SP>> \o m.start[3] \o CRLF
       [] mu = "status" -> m.start[1] \o <<SP, "2", "x", "0", SP>> \o m.start[3] \o CRLF
+      [] mu \in Redirs -> m.start[1] \o <<SP, "3", "0", "2", SP, "F">> \o CRLF
       [] OTHER -> StartLine(m)
 NoColon(h) == h.name \o h.ows \o h.value \o CRLF
+Location == <<"L", "o", "c", "a", "t", "i", "o", "n", ":", SP>>
 LenHeader(m, v) == <<[name |-> ContentLength, ows |-> m.fows, value |-> v]>>
 XHeads(m, mu) ==
     CASE mu = "nocolon" -> NoColon(AllHeads(m)[1]) \o HLines(Tail(AllHeads(m)))
       \* the first field continued on a second line (obsolete line folding, RFC 7230 3.2.4: may be rejected)
       [] mu = "obsfold" -> AllHeads(m)[1].name \o <<":", SP, "a">> \o CRLF \o <<SP>> \o AllHeads(m)[1].value \o CRLF \o HLines(Tail(AllHeads(m)))
+      [] mu = "redirbadport" -> Location \o <<"h", "t", "t", "p", ":", "/", "/", "h", ":", "x", "/", "p">> \o CRLF \o HLines(AllHeads(m))
+      [] mu = "redirbadhost" -> Location \o <<"h", "t", "t", "p", ":", "/", "/", "[", "/", "p">> \o CRLF \o HLines(AllHeads(m))
       [] mu = "lennonnum" -> HLines(m.heads \o LenHeader(m, <<"x">>))
       [] mu = "lenneg" -> HLines(m.heads \o LenHeader(m, <<"-", "1">>))
       [] mu = "lenmore" -> HLines(m.heads \o LenHeader(m, Dec(Len(m.body.data) + 2)))
@@ -171,13 +176,37 @@ NWire(m, f, v) ==
                            ELSE BadVer(v) \o <<SP>> \o m.start[2] \o <<SP>> \o m.start[3])
                           \o CRLF \o HLines(AllHeads(m)) \o CRLF \o BodyWire(m.body)
 
-FlipBytes == {CR, LF, SP, ":", ";", "HI", "0", "x", "-"}
+(* ---- text with characters that mean something to formatting / escaping code, injected where an error report *)
+(*      would echo the peer's bytes: method, target, version, a header / trailer line, a chunk-size line, status *)
+MetaToks == << <<"{">>, <<"}">>, <<"{", "0", "}">>, <<"{", "x", "}">>, <<"{", "}">>, <<"%", "s">>, <<"%">>, <<"%", "(", "a", ")", "s">>,
+               <<"\\">>, <<"x00">>, <<"HI">>, <<"{", "0", "!", "r", "}">>, <<"$", "{", "a", "}">> >>
+TokParts == {"method", "target", "version", "header", "chunksize", "trailer", "status"}
+TokApplicable(m, pt) == CASE pt \in {"method", "target"} -> m.kind = "req"
+                          [] pt = "status" -> m.kind = "resp"
+                          [] pt \in {"chunksize", "trailer"} -> m.body.k = "chunked"
+                          [] OTHER -> TRUE
+TStart(m, pt, t) ==
+    CASE pt = "method" -> <<"G">> \o t \o <<SP>> \o m.start[2] \o <<SP>> \o m.start[3] \o CRLF
+      [] pt = "target" -> m.start[1] \o <<SP, "h", "t", "t", "p", ":", "/", "/", "[">> \o t \o <<SP>> \o m.start[3] \o CRLF
+      [] pt = "version" -> (IF m.kind = "req" THEN m.start[1] \o <<SP>> \o m.start[2] \o <<SP, "X">> \o t
+                            ELSE <<"X">> \o t \o <<SP>> \o m.start[2] \o <<SP>> \o m.start[3]) \o CRLF
+      [] pt = "status" -> m.start[1] \o <<SP>> \o t \o <<SP>> \o m.start[3] \o CRLF
+      [] OTHER -> StartLine(m)
+TWire(m, pt, t) ==
+    TStart(m, pt, t)
+    \o (IF pt = "header" THEN <<"B">> \o t \o CRLF ELSE <<>>) \o HLines(AllHeads(m)) \o CRLF
+    \o (IF m.body.k # "chunked" THEN BodyWire(m.body)
+        ELSE (IF pt = "chunksize" THEN t \o CRLF \o m.body.chunks[1].data \o CRLF ELSE ChunkWire(m.body.chunks[1]))
+             \o Cat([i \in 1..(Len(m.body.chunks) - 1) |-> ChunkWire(m.body.chunks[i + 1])])
+             \o <<"0">> \o CRLF \o (IF pt = "trailer" THEN <<"T">> \o t \o CRLF ELSE HLines(m.body.trailers)) \o CRLF)
+
+FlipBytes == {CR, LF, SP, ":", ";", "HI", "0", "x", "-", "{", "}", "%", "\\", "x00"}
 Junk == << <<LF, LF>>, <<CR, LF, CR, LF>>, <<"HI", "HI", ":", CR, LF, CR, LF>>, <<"G", "E", "T", CR, LF, CR, LF>>,
            <<":", CR, LF>>, <<"0", CR, LF, CR, LF>>, <<"G", "E", "T", SP, "/", SP, "H", "T", "T", "P", "/", "1", ".", "1", LF, LF>> >>
 
 (* ---- behaviour ---- *)
 UsedConns == IF kind = "server" THEN Conns ELSE {1}
-Plans == {"msg", "num", "flip", "drop", "insert", "junk", "truncate"}
+Plans == {"msg", "num", "tok", "flip", "drop", "insert", "junk", "truncate"}
 
 Init == /\ kind \in Kinds
         /\ phase = "plan" /\ plan = "none"
@@ -197,7 +226,7 @@ Init == /\ kind \in Kinds
 \* the environment first decides what sort of tampering comes next (or to start) ...
 Plan(pl) == /\ phase = "plan" /\ nmut < MaxMut
             /\ pl \in PlanSet
-            /\ (pl \in {"msg", "num"}) => (nmut = 0)     \* structured breakage applies to the untouched first message
+            /\ (pl \in {"msg", "num", "tok"}) => (nmut = 0)     \* structured breakage applies to the untouched first message
             /\ phase' = "mutate" /\ plan' = pl
             /\ UNCHANGED <<kind, bad, script, wire, wlen, mutated, nmut, sent, pieces, pclosed, open, failed, resp, raised>>
 \* ... then does it, on the one connection it may tamper with
@@ -214,6 +243,9 @@ MutMsg(c, mu) == /\ Applicable(Fam(kind)[script[c][1]], mu)
 \* a numeric field of the first message is replaced by the jth piece of bad text
 MutNum(c, f, j) == /\ NumApplicable(Fam(kind)[script[c][1]], f)
                    /\ Tamper("num", c, NWire(Fam(kind)[script[c][1]], f, NumBad[j]) \o WireOf(kind, Tail(script[c])))
+\* a part of the first message that error reports echo gets the jth piece of awkward text
+MutTok(c, pt, j) == /\ TokApplicable(Fam(kind)[script[c][1]], pt)
+                    /\ Tamper("tok", c, TWire(Fam(kind)[script[c][1]], pt, MetaToks[j]) \o WireOf(kind, Tail(script[c])))
 MutFlip(c, i, b) == i \in 1..Len(wire[c]) /\ wire[c][i] # b /\ Tamper("flip", c, [wire[c] EXCEPT ![i] = b])
 MutDrop(c, i) == i \in 1..Len(wire[c]) /\ Len(wire[c]) > 1 /\ Tamper("drop", c, SubSeq(wire[c], 1, i - 1) \o SubSeq(wire[c], i + 1, Len(wire[c])))
 MutInsert(c, i, b) == i \in 1..Len(wire[c]) /\ Tamper("insert", c, SubSeq(wire[c], 1, i - 1) \o <<b>> \o SubSeq(wire[c], i, Len(wire[c])))
@@ -293,6 +325,7 @@ Settle == \E o1 \in Choices(1), o2 \in Choices(2), o3 \in Choices(3) : ServiceCo
 Next == \/ \E pl \in Plans : Plan(pl)
         \/ \E c \in Conns, mu \in MutKinds : MutMsg(c, mu)
         \/ \E c \in Conns, f \in NumFields, j \in 1..Len(NumBad) : MutNum(c, f, j)
+        \/ \E c \in Conns, pt \in TokParts, j \in 1..Len(MetaToks) : MutTok(c, pt, j)
         \/ \E c \in Conns, i \in 1..MaxPos, b \in FlipBytes : MutFlip(c, i, b)
         \/ \E c \in Conns, i \in 1..MaxPos : MutDrop(c, i)
         \/ \E c \in Conns, i \in 1..MaxPos, b \in FlipBytes : MutInsert(c, i, b)
